@@ -1,12 +1,13 @@
 """C17 - Calinski-Harabasz index matches its definition (end-to-end half)."""
-from . import _common
+from . import _common, _metrics
 
 LEVEL = "model_checking"
 
 
 def run(tier):
     return _common.corpus_property(
-        "C17", tier, LEVEL, models=(),
+        "C17", tier, LEVEL, models=[("Metrics", "Metrics_a.cfg")] + ([("Metrics", "Metrics_b.cfg")] if tier == "thorough" else []),
         need=('converged',),
         rule="""every converged completed run with all clusters non-empty""",
+        extra=lambda rep, trs, tier: _metrics.ch_family(rep, tier, {"C17"}),
         nontrivial=lambda t: (t['hdr']['id'],) if any(e['ev']=='converged' for e in t['events']) else None)
